@@ -17,7 +17,8 @@ CFG = {
             "judged directly (no error/panic; head = last head made or nearest ancestor with complete state; full state iteration; number-index "
             "walk; re-import converges). One case line per history: the Lean model re-generates the log with its writer model (per variant) and "
             "evaluates recover/imageOK on every prefix. Fault injection: every single Put/Delete/batch.Write fails once in a child process "
-            "(log.Crit exit = crash, hang = deadlock), plus trie.Database.Commit with >IdealBatchSize pending preimages. Non-trivial = a history "
+            "(log.Crit exit = crash, hang = deadlock; a survived failure is followed by a retry of the failed segment in the same process, the rest of the history, Stop and a judged reopen; "
+            "directed histories put the failing write on the side blocks of a branch that later overtakes), plus trie.Database.Commit with >IdealBatchSize pending preimages. Non-trivial = a history "
             "whose log the model reproduced and whose prefixes were all reopened.",
     "tie": {"core.NewBlockChain/loadLastState/repair/Reset": "corr (Go reopen outcome vs Model.recover on every prefix of every recorded log) + direct Spec judgement",
             "core.WriteBlockWithState/reorg/insert, WriteBlockWithoutState, Stop, NewBlockChain's LastHeader rewrite": "corr (recorded log vs Model.writeLog event by event, batches as multisets; fork choice and flushed trie batches are inputs)",
@@ -29,7 +30,10 @@ CFG = {
                     "the hypothesis `FlushOK`/`diskRefs present`, and checked on every observed batch",
                     "reimport_converges (archive): blocks valid; a td record holds parent's record + difficulty (C02 td_recurrence; the C04 store "
                     "records presence only); the re-import covers the universe parents-first. Pruning images with lost states: _partial; judged on the real code at every prefix",
-                    "WritePreimages (SHA3 preimages of the EVM) is not modelled: the harness programs execute no SHA3"],
+                    "WritePreimages (SHA3 preimages of the EVM) is not modelled: the harness programs execute no SHA3",
+                    "the writer model and recover read the store; the Go code reads through bc.blockCache: equal under cache coherence, which the code as written keeps "
+                    "because the cache is filled only by reads (theorem failed_write_leaves_no_cached_unwritten_block); on the real code every survivable injected failure is "
+                    "followed by a retry of the segment, the rest of the history, Stop, reopen and the full judgement"],
     "trusted_base": ["Model.ChainDb.recover mirrors core/blockchain.go NewBlockChain/loadLastState/repair/Reset and core/database_util.go readers",
                      "Model.ChainWriter mirrors WriteBlockWithState/reorg/insert/WriteBlockWithoutState/Stop/SetHead (validated event by event against recorded logs)"],
 }
